@@ -21,7 +21,7 @@ def run(model, rep):
                        'exceptions in general.')
     for r, t in [('C08.EX1', 'print handler for every node class'), ('C08.EX2', 'dispatch entry for every statement class'), ('C08.TAB1', 'compound statement list'), ('C08.TAB3', 'precedence entries'),
                  ('C08.KEYW', 'keyword tables'), ('C08.PASS', 'SyntaxError pass-through'), ('C08.ERRD', 'error discipline at fallible evaluations'),
-                 ('C08.CELLS', 'statement / literal cells print without error and re-parse'), ('C08.RAISE', 'inventory of explicit raise sites (informational)')]:
+                 ('C08.CELLS', 'statement / literal cells print without error and re-parse'), ('C08.E2E', 'minify() end to end on the probe modules under three option sets: returns, result compiles'), ('C08.RAISE', 'inventory of explicit raise sites (informational)')]:
         rep.rule(r, t)
     c02.static_tables(model, rep, 'C08')
     # ---------------- PASS
@@ -74,6 +74,44 @@ def run(model, rep):
              (c[1].startswith('slot ') and c[1].split('<- ')[-1] in PAREN_SENSITIVE)]
     results = c02.run_cells(model, cells)
     c02.report_cells(rep, 'C08.CELLS', results, 'src/python_minifier/{module,expression,token}_printer.py', lambda l: ' '.join(l.split(' ')[:2]).rstrip(':'), 700)
+
+    # ---------------- E2E: minify() itself (every stage, then the printer) evaluated on the probe modules of the other properties under three option
+    # sets: it returns, and what it returns is accepted by the compiler
+    from ..minrun import option_names
+    from . import compose_e2e, rename_e2e, size_e2e
+    names = option_names(model)
+    defaults = {}
+    for o in names:
+        d = mi.defaults().get(o)
+        defaults[o] = d.value if isinstance(d, ast.Constant) and isinstance(d.value, bool) else True
+    option_sets = [('every option off', {o: False for o in names}), ('the default options', defaults), ('every option on', {o: True for o in names})]
+    sources = dict(size_e2e.probes())
+    sources.update(('compose: ' + k, v) for k, v in compose_e2e.PROBES.items())
+    sources.update(('idiom: ' + k, v) for k, v in rename_e2e.IDIOM_PROBES.items())
+    for (cls_, field), srcs in rename_e2e.FORM_PROBES.items():
+        sources['binding forms: %s.%s' % (cls_, field)] = '\n'.join(s_.replace('def f', 'def f%d' % i_).replace('class K', 'class K%d' % i_) for i_, s_ in enumerate(srcs))
+    for label, source in sorted(sources.items()):
+        try:
+            compile(source, 'probe', 'exec', dont_inherit=True)
+        except SyntaxError:
+            rep.note('C08.E2E: this interpreter does not compile the probe %r' % label)
+            continue
+        for oname, opts in option_sets:
+            if rep.tier != 'thorough' and oname == 'every option off' and not label.startswith(('binding forms', 'rename probe')):
+                continue
+            text, err = size_e2e.printed(model, source, opts)
+            key = 'C08.E2E|%s|%s' % (label, oname)
+            if err:
+                rep.violation('C08.E2E', mi.loc(), 'probe `%s`, %s' % (label, oname), '%s for a module the interpreter compiles' % err, key=key)
+                continue
+            try:
+                compile(text, 'minified probe', 'exec', dont_inherit=True)
+                bad = None
+            except (SyntaxError, ValueError) as ex:
+                bad = str(ex)
+            rep.check(bad is None, 'C08.E2E', mi.loc(), 'probe `%s`, %s -> %d characters' % (label, oname, len(text)), 'minify() returns and the compiler accepts the result',
+                      'the compiler rejects what minify() returns (%s): %r' % (bad, text[:160]), key=key)
+    rep.floor('C08.E2E', 80)
 
     # ---------------- RAISE inventory
     cg = CallGraph(model)
